@@ -47,8 +47,33 @@ def shards(tier, seed):
              "n": 60} for i in range(32)]
 
 
-def run_cmd(fn, opts):
+def run_cmd(fn, opts, cli=None):
+    """cli: 'adm_ledger' / 'adm_sgx' -> the same verification through the tool's own
+    command line (argument parser, defaults, dispatch table, exit status)"""
     buf = io.StringIO()
+    if cli and all(isinstance(v, str) and not v.startswith("-") for v in vars(opts).values()):
+        import sys
+        import logging
+        import importlib
+        mod = importlib.import_module(cli)
+        argv = [cli + ".py", "verify_attestation",
+                "-t", opts.attestation_certificate_file_path,
+                "-b", opts.pubkeys_file_path, "-r", opts.root_authority]
+        saved = sys.argv
+        sys.argv = argv
+        try:
+            with contextlib.redirect_stdout(buf):
+                mod.main()
+            return True, buf.getvalue(), None
+        except SystemExit as e:
+            if e.code in (0, None):
+                return True, buf.getvalue(), None
+            return False, buf.getvalue(), RuntimeError("exit status %r" % (e.code,))
+        except Exception as e:
+            return False, buf.getvalue(), e
+        finally:
+            sys.argv = saved
+            logging.disable(logging.CRITICAL)
     try:
         with contextlib.redirect_stdout(buf):
             fn(opts)
@@ -254,7 +279,10 @@ def ledger_case(acc, rng, variant, tmpdir, case):
         la.dump(pk, pkp)
     opts = SimpleNamespace(attestation_certificate_file_path=certp, pubkeys_file_path=pkp,
                            root_authority=root_hex)
-    ok, out, exc = run_cmd(do_verify_attestation, opts)
+    cli = "adm_ledger" if rng.random() < 0.5 else None
+    if cli:
+        acc.count("verifications_through_the_command_line")
+    ok, out, exc = run_cmd(do_verify_attestation, opts, cli)
     acc.evaluations += 1
     acc.distinct.add("ledger|%s|%s|%s" % (form, file_form, variant))
     label = "ledger:%s" % variant
@@ -436,7 +464,10 @@ def sgx_case(acc, rng, variant, tmpdir, case):
         expect_ok = False
     opts = SimpleNamespace(attestation_certificate_file_path=certp, pubkeys_file_path=pkp,
                            root_authority=rootp)
-    ok, out, exc = run_cmd(do_verify_attestation, opts)
+    cli = "adm_sgx" if rng.random() < 0.5 else None
+    if cli:
+        acc.count("verifications_through_the_command_line")
+    ok, out, exc = run_cmd(do_verify_attestation, opts, cli)
     acc.evaluations += 1
     acc.distinct.add("sgx|%d|%s" % (len(m.certs), variant))
     label = "sgx:%s" % variant
